@@ -10,7 +10,7 @@ def date_to_julian_day(d):
 def coins_to_satoshis(coins):
     if not isinstance(coins, str):
         raise ValueError("{coins} must be a string")
-    result = re.search(r'^(\d{1,10})\.(\d{1,8})$', coins)
+    result = re.search(r'^(\d{1,10})\.(\d{1,8})\Z', coins)
     if result is not None:
         whole, fractional = result.groups()
         return int(whole+fractional.ljust(8, "0"))
